@@ -785,7 +785,36 @@ def check_spec(ctx, spec, prov, how):
                       f'alarm {i}: computed {g}, expected one of {[sorted(e) for e in exp]}', cls)
 
 
+TWO_ALARMS = (b'BEGIN:VEVENT\r\nUID:leak\r\nDTSTART:20240305T100000Z\r\nDTEND:20240305T120000Z\r\n'
+              b'BEGIN:VALARM\r\nACTION:DISPLAY\r\nDESCRIPTION:one\r\nTRIGGER;RELATED=START:-PT15M\r\nEND:VALARM\r\n'
+              b'BEGIN:VALARM\r\nACTION:DISPLAY\r\nDESCRIPTION:two\r\nTRIGGER;RELATED=START:-PT30M\r\nEND:VALARM\r\nEND:VEVENT\r\n')
+
+
+def check_alarms_independent(ctx):
+    """the alarm times of one alarm depend on that alarm only: editing one parsed alarm (RELATED) must not move
+    its sibling, nor the alarms of a later parse of the same text"""
+    from datetime import datetime, timezone
+    from icalendar import Event
+    ctx.evaluated(('independent-alarms',))
+    e = Event.from_ical(TWO_ALARMS)
+    a1, a2 = e.walk('VALARM')
+    a1.TRIGGER_RELATED = 'END'
+    want2 = datetime(2024, 3, 5, 9, 30, tzinfo=timezone.utc)
+    got = sorted(t.trigger for t in e.alarms.times)
+    want = sorted([datetime(2024, 3, 5, 11, 45, tzinfo=timezone.utc), want2])
+    if [g.astimezone(timezone.utc) for g in got] != want:
+        ctx.violation('alarm-state-shared', {'text': TWO_ALARMS.decode()},
+                      f'after setting RELATED=END on the first alarm only, the times are {got}, expected {want}')
+    e2 = Event.from_ical(TWO_ALARMS)
+    got2 = sorted(t.trigger.astimezone(timezone.utc) for t in e2.alarms.times)
+    want_fresh = sorted([datetime(2024, 3, 5, 9, 45, tzinfo=timezone.utc), want2])
+    if got2 != want_fresh:
+        ctx.violation('alarm-state-shared', {'text': TWO_ALARMS.decode()},
+                      f'a fresh parse of the same text gives {got2} after another parsed copy was edited, expected {want_fresh}')
+
+
 def oracle(ctx):
+    check_alarms_independent(ctx)
     light = not ctx.escalate and ctx.tier == 'quick'
     specs = list(all_specs(ctx, ctx.vol(500)))
     for prov in PROVIDERS:
